@@ -15,7 +15,7 @@ RULE = ("case kinds: (diff) one node-weighted instance (DAG or cyclic; nodes wit
         "ignored; (rt) NodeExpandedDiGraph round trips. non-trivial = both sides solved; distinct = (class, instance)")
 CASE_TIMEOUT = {"quick": 200, "thorough": 900}
 REQUIRED_OBS = {"c11.pairs_compared": 200, "c11.round_trips": 300, "c11.missing_attr_equivalences": 20}
-ASSUMPTIONS = ["a solve that hits the 8 s solver limit on either side yields no verdict", "MinFlowDecomp with additional starts/ends in node mode uses the library's fill-in of missing values and is compared on solved status only"]
+ASSUMPTIONS = ["a solve that hits the 8 s solver limit on either side yields no verdict", "MinFlowDecomp with additional starts/ends (node mode only) is compared with an explicit instance built by the harness: the expansion plus a helper source S* / helper sink T* joined to the declared nodes by ignored edges"]
 EXHAUSTIVE = {"quick": False, "thorough": False}
 SO = {"threads": 1, "time_limit": 8}
 CLASSES = W.ALL + ["MinErrorFlow"]
@@ -27,6 +27,9 @@ def gen_cases(tier, seed):
     for cls in CLASSES:
         for i in range(n):
             cases.append({"kind": "diff", "cls": cls, "rs": f"C11:{seed}:{cls}:{i}"})
+    for i in range(n):
+        # node-weighted minimum decompositions that start / end at declared inner nodes (explicit instance built by hand)
+        cases.append({"kind": "diff", "cls": "MinFlowDecomp", "rs": f"C11se:{seed}:{i}", "force_se": True})
     for i in range(n * 6):
         cases.append({"kind": "rt", "rs": f"C11r:{seed}:{i}"})
     cases.append({"kind": "pctcorpus"})
@@ -91,6 +94,27 @@ def run_diff(case, viol, obs):
         k = max(1, len(base["planted"])) + rng.choice([0, 1]); kwn["k"] = k; kwe["k"] = k
     if cls in ("kFlowDecomp", "MinFlowDecomp"):
         kwn["optimization_options"] = {"optimize_with_greedy": False}; kwe["optimization_options"] = {"optimize_with_greedy": False}
+    helper_edges = []; hand_se = {}
+    r_se = gen.rng_for("C11se", case["rs"])
+    if cls == "MinFlowDecomp" and (r_se.random() < 0.35 or case.get("force_se")) and any(len(p_) >= 2 for p_, _ in base["planted"]):
+        # additional start / end nodes of the node-weighted minimum decomposition (its edge mode has no such arguments: the explicit instance
+        # gets a helper source S* / helper sink T* joined by ignored edges). One planted path is cut so that it really starts / ends inside.
+        var_ = r_se.choice(["s", "e", "e", "se"])
+        base = dict(base); base["flow"] = dict(base["flow"]); planted_ = [(list(p_), w_) for p_, w_ in base["planted"]]
+        idx_ = [i_ for i_, (p_, _) in enumerate(planted_) if len(p_) >= 2]
+        if "e" in var_:
+            i_ = r_se.choice(idx_); p_, w_ = planted_[i_]; j_ = r_se.randint(1, len(p_) - 1)
+            for v_ in p_[j_:]:
+                base["flow"][v_] -= w_
+            planted_[i_] = (p_[:j_], w_); hand_se["additional_ends"] = [p_[j_ - 1]]; helper_edges.append((p_[j_ - 1] + "|o", "T*"))
+        if "s" in var_:
+            idx_ = [i_ for i_, (p_, _) in enumerate(planted_) if len(p_) >= 2]
+            if idx_:
+                i_ = r_se.choice(idx_); p_, w_ = planted_[i_]; j_ = r_se.randint(1, len(p_) - 1)
+                for v_ in p_[:j_]:
+                    base["flow"][v_] -= w_
+                planted_[i_] = (p_[j_:], w_); hand_se["additional_starts"] = [p_[j_]]; helper_edges.append(("S*", p_[j_] + "|i"))
+        base["planted"] = planted_
     drop = []
     ign_nodes = []
     if not cover and rng.random() < 0.3 and len(nodes) >= 2:
@@ -100,6 +124,11 @@ def run_diff(case, viol, obs):
     feats = []; node_len = None
     H_nodes, H_edges, H_ea = own_expand(base, drop)
     ign_e = [(u + "|o", v + "|i") for (u, v) in base["edges"]] + [(v + "|i", v + "|o") for v in drop + ign_nodes]
+    if helper_edges:
+        H_nodes = H_nodes + [x for x in ("S*", "T*") if any(x in e for e in helper_edges)]; H_edges = H_edges + helper_edges
+        for e in helper_edges:
+            H_ea[e] = {}
+        ign_e += helper_edges; kwn.update(hand_se); feats.append("starts/ends-by-hand"); obs["c11.mfd_start_end_cases"] += 1
     if ign_nodes:
         kwn["elements_to_ignore"] = list(ign_nodes); feats.append("ignore")
     kwe["elements_to_ignore"] = [list(e) for e in ign_e]
